@@ -243,3 +243,59 @@ Qed.
 (* ... so two successive injections add the two separately computed signals, in either order *)
 Theorem superpose (d r1 r2 : Q) : (d + r1) + r2 == (d + r2) + r1 /\ (d + r1) + r2 == d + (r1 + r2).
 Proof. split; ring. Qed.
+
+(* ---------------- bounded = unbounded restricted to the range ---------------- *)
+Definition simple_bp (bp : option comp) : Prop :=
+  match bp with None => True | Some (CScal _) => True | Some (CFun _) => True | Some (CArr _) => False end.
+
+Lemma bp_value_at grid bp bv k : simple_bp bp -> bp_values grid bp = Ok bv -> (k < length grid)%nat ->
+  nth k bv 0 = match bp with None => 1 | Some (CScal c) => c | Some (CFun b) => b (nth k grid 0) | Some (CArr _) => 0 end.
+Proof.
+  intros Hs Hb Hk. destruct bp as [[b|l|c]|]; cbn in Hs, Hb; try contradiction; inversion Hb; subst.
+  - now apply nth_map_lt.
+  - now apply nth_repeat_lt.
+  - now apply nth_repeat_lt.
+Qed.
+
+Theorem bounded_eq_unbounded fr path tp fp bp br o frb retb fru retu i j :
+  wf fr -> integrate_f o = false -> simple_bp bp ->
+  add_signal fr path tp fp bp br o = Ok (frb, retb) ->
+  add_signal fr path tp fp bp None o = Ok (fru, retu) ->
+  (i < T fr)%nat -> (fst (bounds fr br) <= j < snd (bounds fr br))%nat ->
+  nth2 0 retb i j = nth2 0 retu i j.
+Proof.
+  intros Hwf Hif Hsb Hb Hu Hi Hj.
+  pose proof (bounds_range fr br) as BR. destruct (bounds fr br) as [lo hi] eqn:EB. cbn [fst snd] in Hj. destruct BR as [B1 B2].
+  (* unfold both computations *)
+  assert (Sb := Hb). assert (Su := Hu).
+  unfold add_signal in Sb, Su. rewrite EB in Sb. cbn [bounds] in Su.
+  destruct (t_values fr o tp) as [tv|] eqn:Et; [|discriminate].
+  destruct (path_values fr o path) as [pv|] eqn:Ep; [|discriminate].
+  destruct (bp_values (rgrid fr o lo (hi - lo)) bp) as [bvb|] eqn:Ebb; [|discriminate].
+  destruct (bp_values (rgrid fr o 0 (F fr - 0)) bp) as [bvu|] eqn:Ebu; [|discriminate].
+  set (gb := rgrid fr o lo (hi - lo)) in *. set (gu := rgrid fr o 0 (F fr - 0)) in *.
+  set (pxb := if smear o then pixel_smear fp (n_smear o) tv pv bvb gb else pixel_plain fp tv pv bvb gb) in *.
+  set (pxu := if smear o then pixel_smear fp (n_smear o) tv pv bvu gu else pixel_plain fp tv pv bvu gu) in *.
+  assert (Hsb' : sig_of fr path tp fp bp br o = Some (mk (T fr) (hi - lo) (fmean o pxb))).
+  { unfold sig_of. rewrite EB. cbn [fst snd]. rewrite Et, Ep. fold gb. rewrite Ebb. reflexivity. }
+  assert (Hsu' : sig_of fr path tp fp bp None o = Some (mk (T fr) (F fr - 0) (fmean o pxu))).
+  { unfold sig_of. cbn [bounds fst snd]. rewrite Et, Ep. fold gu. rewrite Ebu. reflexivity. }
+  rewrite (ret_inside fr path tp fp bp br o frb retb Hb _ i j Hsb' Hi) by (rewrite EB; cbn [fst snd]; exact Hj).
+  rewrite (ret_inside fr path tp fp bp None o fru retu Hu _ i j Hsu' Hi) by (cbn [bounds fst snd]; lia).
+  rewrite ?EB. cbn [bounds fst snd]. rewrite ?Nat.sub_0_r.
+  rewrite !nth2_mk by lia. unfold fmean. rewrite Hif.
+  (* grid and bandpass values coincide *)
+  assert (Lgb : length gb = (hi - lo)%nat) by (unfold gb, rgrid; rewrite Hif; apply tab_length).
+  assert (Lgu : length gu = F fr) by (unfold gu, rgrid; rewrite Hif, Nat.sub_0_r; apply tab_length).
+  assert (Gb : nth (j - lo) gb 0 = fs fr j).
+  { unfold gb, rgrid. rewrite Hif. rewrite nth_tab by lia. f_equal. lia. }
+  assert (Gu : nth j gu 0 = fs fr j).
+  { unfold gu, rgrid. rewrite Hif, Nat.sub_0_r. rewrite nth_tab by lia. reflexivity. }
+  assert (Bb := bp_value_at gb bp bvb (j - lo) Hsb Ebb ltac:(lia)).
+  assert (Bu := bp_value_at gu bp bvu j Hsb Ebu ltac:(lia)).
+  rewrite Gb in Bb. rewrite Gu in Bu.
+  assert (BV : nth (j - lo) bvb 0 = nth j bvu 0) by (rewrite Bb, Bu; reflexivity).
+  unfold pxb, pxu. destruct (smear o).
+  - unfold pixel_smear. rewrite Gb, Gu, BV. reflexivity.
+  - unfold pixel_plain. rewrite Gb, Gu, BV. reflexivity.
+Qed.
